@@ -31,6 +31,16 @@ def check(rep, tier, seed):
     bad = []
     # exhaustive / extreme probes inside the harness, release and debug (overflow checks)
     probes = {}
+    # the process's own time zone is an input of the DateTime<Local> writer: UTC, and zones east and west of it
+    for tzname in ("Asia/Tokyo", "America/Los_Angeles", "Europe/Budapest"):
+        for l in C.run([harness, "c17", "datetimes-only"], timeout=600, env={"TZ": tzname}).stdout.strip().splitlines():
+            f = l.split(" ")
+            if len(f) >= 5 and f[0] == "DT" and f[1] == "local":
+                local = int(f[2]) + int(f[3])
+                want = "ok" if -8334601228800 <= local <= 8210266876799 else "err"
+                if f[4] != want:
+                    bad.append((f"c17 (TZ={tzname})", l, f"DateTime<Local>: expected {want}: the stored local time is "
+                                + ("representable" if want == "ok" else "not representable")))
     for prof, exe in (("release", harness), ("debug", hdebug)):
         out = C.run([exe, "c17"], timeout=1200).stdout.strip().splitlines()
         probes[prof] = out
@@ -43,7 +53,9 @@ def check(rep, tier, seed):
             f = l.split(" ")
             if f[4] == "panic":
                 bad.append((f"c17 ({prof})", l, "encoding a date-time at the end of chrono's range unwinds"))
-            elif f[1] == "fixed":
+            elif f[1] == "tz" and f[4] != "ok":
+                bad.append((f"c17 ({prof})", l, "a DateTime<Tz> inside chrono's range (its UTC date-time is what is stored) is not encoded"))
+            elif f[1] in ("fixed", "local"):
                 local = int(f[2]) + int(f[3])
                 want = "ok" if -8334601228800 <= local <= 8210266876799 else "err"
                 if f[4] != want:
